@@ -62,6 +62,12 @@ def build_plan(choice: Choice, tier):
     p["readers"] = d(3, "readers")
     n = 1 + d(12 if thorough else 8, "n")
     layout = d(6, "layout")  # 0 contiguous asc, 1 reversed, 2 gaps, 3 shuffled, 4 presized, 5 presized+gaps
+    p["many_ids"] = d(60, "many.ids") == 59
+    if p["many_ids"]:
+        # one writer stores more than a thousand ids in reversed order: id 0 arrives when a long filled stretch is above it
+        n = [1030, 2060, 4100][d(3, "many.ids.n")]
+        layout = 1
+        p["writers"], p["readers"] = 1, 0
     ids = list(range(n))
     if layout in (2, 5):
         ids = [g for g in ids if d(3, "gap") != 2] or [n - 1]
@@ -137,6 +143,10 @@ def build_plan(choice: Choice, tier):
         if len(sc) >= 2 and d(5, "reopen") == 4 and not p["write_fault"]:
             sc.insert(1 + d(len(sc) - 1, "reopen.at"), ["reopen"])
     p["granularity"] = "line" if d(6, "granularity") != 5 else "sync"
+    if p["many_ids"]:
+        p["granularity"] = "sync"
+        p["torn"] = False
+        p["write_fault"] = None
     p["n"] = n
     return p
 
@@ -273,7 +283,7 @@ def scenario(k: Kernel, plan, obs):
         q["contiguous"] = storage.is_contiguous()
         q["list"] = list(storage)
         reads = {}
-        for g in range(plan["n"] + 2):
+        for g in (range(plan["n"] + 2) if not plan.get("many_ids") else [0, 1, plan["n"] // 2, plan["n"] - 1, plan["n"]]):
             try:
                 reads[g] = storage[g]
             except IndexError:
@@ -295,7 +305,7 @@ def scenario(k: Kernel, plan, obs):
     fl = {"files_left": sorted(os.listdir(tmp)), "len": len(storage)}
     with storage:
         r = {}
-        for g in range(plan["n"] + 2):
+        for g in (range(plan["n"] + 2) if not plan.get("many_ids") else [0, plan["n"] - 1]):
             try:
                 r[g] = storage[g]
             except IndexError:
